@@ -517,3 +517,43 @@ def enumerate_small(depth2=True):
                     return fn(g, t1)
 
                 yield label, build2
+
+
+def directed_shapes():
+    """[(label, builder(gen) -> T)]: small fixed shapes of feature interactions that the random draw reaches too rarely to rely on
+    (each was the place of a stored seeded change); run in full by the schema / behaviour checks before their random programs"""
+    def rec(wrap, cons, default=None, factory=None):
+        def build(g):
+            name = g.fresh("D")
+            ref = Ann(Ref(name), dict(cons)) if cons else Ref(name)
+            f = F(g.fresh("f"), wrap(ref))
+            f.default, f.factory = default, factory
+            return ObjectT("dataclass", name, [F(g.fresh("f"), Prim("int")), f])
+        return build
+
+    def holder(inner, default="None"):
+        def build(g):
+            f = F(g.fresh("f"), inner())
+            f.default = default
+            return ObjectT("dataclass", g.fresh("D"), [F(g.fresh("f"), Prim("int")), f])
+        return build
+
+    out = []
+    for cname, cons in (("min_props1", {"min_props": 1}), ("max_props1", {"max_props": 1}), ("min_props2", {"min_props": 2}), ("none", None)):
+        out.append((f"rec-opt:{cname}", rec(opt, cons, default="None")))
+        out.append((f"rec-list:{cname}", rec(lambda r: Coll("list", r), cons, factory="list")))
+        out.append((f"rec-dict:{cname}", rec(lambda r: MapT("dict", Prim("str"), r), cons, factory="dict")))
+        out.append((f"rec-opt-list:{cname}", rec(lambda r: opt(Coll("list", r)), cons, default="None")))
+    def dep_req(g):
+        a, b, c = F(g.fresh("f"), Prim("int")), F(g.fresh("f"), Prim("str")), F(g.fresh("f"), opt(Prim("int")))
+        a.default, b.default, c.default = "0", "''", "None"
+        o = ObjectT("dataclass", g.fresh("D"), [a, b, c])
+        o.dep_req = {a.name: [b.name], c.name: [a.name, b.name]}
+        return o
+
+    out.append(("dependent-required", dep_req))
+    for vals in (["a"], [1], [True], ["a", "b"], [0, ""]):
+        out.append((f"opt-literal:{vals!r}", lambda g, vals=vals: opt(Lit(list(vals)))))
+        out.append((f"opt-literal-field:{vals!r}", holder(lambda vals=vals: opt(Lit(list(vals))))))
+        out.append((f"list-opt-literal:{vals!r}", lambda g, vals=vals: Coll("list", opt(Lit(list(vals))))))
+    return out
